@@ -29,6 +29,12 @@ CLAIMED = {
  "C18": dict(text="Both step-size helpers modelled over Q; positivity proved for all inputs (dt0_adaptive: unconditional; dt0: positive denominator), refinement to the Hairer-Norsett-Wanner II.4 algorithm proved, differences from the book variant proved; correspondence on logged norm/where/min-max calls incl. zero, tiny, huge and badly scaled inputs, then an adaptive solve from the proposal.",
              note=TB + "Float overflow/underflow is outside the rational model and covered by the harness only (known findings F8-F11).",
              tech="machine-checked proof in Coq (order reasoning over Q, refinement to the HNW spec) + model-vs-implementation correspondence"),
+ "C05": dict(text="Interpolation functions of the three strategies are part of the Coq solver model (one-step refinement against solver.interpolate_fwd); theorems identify filter interpolation with Kalman prediction through the closed-form transition and smoother interpolation with RTS conditioning; the real adaptive driver, forced onto prescribed step sequences, is compared with exact Gaussian filtering/smoothing on the union of step ends and output times (Spec/RTS.v); checkpoint-set independence and terminal values metamorphically.",
+             note=TB + "Independence of the checkpoint set is established by correspondence (C06 machine + interpolation refinement) and metamorphic runs, not by a Coq simulation theorem.",
+             tech="machine-checked proof in Coq (interpolation = prediction / RTS conditioning) + one-step correspondence + executable exact-interpolation specification"),
+ "C16": dict(text="PARTIAL: the one hand-written derivative rule (custom JVP of qr_r) is analysed in Coq: it preserves the Gram derivative for all shapes (theorem) and is refuted as derivative of the triangular factor (exact rational witness); the JAX transformation machinery itself cannot be modelled. The check compares jax.jvp, jax.jacrev and 4th-order finite differences of means, stds, scales and losses w.r.t. vector-field, initial-value, base-scale and noise parameters, with discriminator re-runs (exact QR rule, safe norm, triangular solve) that attribute mismatches to the listed known findings.",
+             note=TB + "Forward/reverse agreement and finiteness are observed, not proved (JAX runtime).",
+             tech="machine-checked proof in Coq (matrix identity + refutation witness) + AD-vs-finite-difference comparison with discriminators"),
  "C17": dict(text="Combinatorial identity over all sign vectors proved for every N; estimators averaged over all probes equal the exact blocks for any Jacobian tensor and any sizes; validator reflection; correspondence with rademacher patched to enumerate all probes.",
              note=TB + "jvp/vjp modelled as the exact linear maps of the Jacobian (JAX AD trusted, checked by correspondence).",
              tech="machine-checked proof in Coq (induction over sign vectors) + model-vs-implementation correspondence under full probe enumeration"),
